@@ -209,7 +209,9 @@ Statements and proofs in `Proofs/SpecNN.lean` (specification theorems and their 
 * `convOut_eq_some_iff`            `convOut L k s p d = some n ⇔ 0<k ∧ 0<s ∧ 0<d ∧ d(k−1)+1 ≤ L+2p ∧ n = (L+2p−d(k−1)−1)/s + 1`
 * `conv2d_accepts_iff`, `conv2d_is_cross_correlation`   `out[n,o,i,j] = b[o] + Σ_{c,a,b} w[o,c,a,b]·xpad[n,c,i·sH+a·dH, j·sW+b·dW]`
 * `pool2d_accepts_iff`, `avgpool2d_counts_padding`, `maxpool2d_padding_never_wins`
-* `softmax_accepts_iff`, `softmax_spec` (any axis; positive entries, every fibre sums to 1, equal to the unshifted formula), `log_softmax_spec`
+* `softmax_accepts_iff`, `softmax_spec` (any axis; positive entries, every fibre sums to 1, equal to the unshifted formula), `log_softmax_spec`;
+  the 0-d operand with `dim` 0 / −1 (accepted, as NumPy's reductions accept these two int axes on a 0-d array): `softmax_zero_dim_accepts`,
+  `softmax_zero_dim` (value 1), `log_softmax_zero_dim` (value 0), `*_zero_dim_backward`, `*_zero_dim_grad` (gradient 0 for every upstream gradient)
 * `mse_spec`, `nll_accepts_iff`, `nll_forward_spec`, `cross_entropy_spec` (`out[n] = −(x[n,label] − log Σ_j exp x[n,j])`) -/
 alias convOut_eq_some_iff := Proofs.SpecNN.convOut_eq_some_iff
 alias conv2d_accepts_iff := Proofs.SpecNN.conv2d_accepts_iff
@@ -220,6 +222,13 @@ alias maxpool2d_padding_never_wins := Proofs.SpecNN.maxpool2d_padding_never_wins
 alias softmax_accepts_iff := Proofs.SpecNN.softmax_accepts_iff
 alias softmax_spec := Proofs.SpecNN.softmax_spec
 alias log_softmax_spec := Proofs.SpecNN.log_softmax_spec
+alias softmax_zero_dim_accepts := Proofs.SpecNN.softmax_zero_dim_accepts
+alias softmax_zero_dim := Proofs.NL.softmax_zero_dim
+alias log_softmax_zero_dim := Proofs.NL.log_softmax_zero_dim
+alias softmax_zero_dim_backward := Proofs.NL.softmax_zero_dim_backward
+alias softmax_zero_dim_grad := Proofs.NL.softmax_zero_dim_grad
+alias log_softmax_zero_dim_backward := Proofs.NL.log_softmax_zero_dim_backward
+alias log_softmax_zero_dim_grad := Proofs.NL.log_softmax_zero_dim_grad
 alias mse_spec := Proofs.SpecNN.mse_spec
 alias nll_accepts_iff := Proofs.SpecNN.nll_accepts_iff
 alias nll_forward_spec := Proofs.SpecNN.nll_forward_spec
